@@ -1398,9 +1398,10 @@ class RT:
         elif f is hash and is_sym(a[0]):
             raise Unsupported("hash() of symbolic value")
         elif f in (set, frozenset) and a and not isinstance(a[0], (str, SymStr)):
-            items = list(a[0])
+            items = list(a[0])          # may be a one-shot iterator: hand the list on
             if any(isinstance(x, SymStr) for x in items):
                 raise Unsupported("set of symbolic strings")
+            a = (items,) + tuple(a[1:])
         elif f is list and len(a) == 1 and isinstance(a[0], (set, frozenset)) and RT.set_order_hook:
             return RT.set_order_hook(list(a[0]))
         elif f is dict and a and isinstance(a[0], (zip, list)):
